@@ -77,6 +77,19 @@ def canon(v: Any) -> str:
     return json.dumps(enc(v), ensure_ascii=True, separators=(",", ":"))
 
 
+def canon_unordered(v: Any) -> str:
+    """bit-exact on numbers (all NaNs identified), insensitive to dict key order (Python `==` on dicts ignores order)"""
+    def norm(x):
+        if isinstance(x, dict):
+            return {"__dict__": sorted(((k, norm(y)) for k, y in x.items()), key=lambda kv: kv[0])}
+        if isinstance(x, (list, tuple)):
+            return [norm(y) for y in x]
+        if isinstance(x, float) and x != x:
+            return "<nan>"
+        return enc(x)
+    return json.dumps(norm(v), sort_keys=True)
+
+
 # ----------------------------------------------------------------------------- oracles
 
 
